@@ -2,6 +2,7 @@ package profile
 
 import (
 	"fmt"
+	"github.com/aml-org/amf-custom-validator/internal/misc"
 	"github.com/aml-org/amf-custom-validator/internal/parser/path"
 	"strings"
 )
@@ -27,13 +28,23 @@ func (r ScalarSetRule) Negate() Rule {
 	return negated
 }
 
+// RegoValues returns the arguments escaped for use between double quotes in Rego source
+func (r ScalarSetRule) RegoValues() []string {
+	acc := make([]string, len(r.Argument))
+	for i, v := range r.Argument {
+		acc[i] = misc.RegoStringContent(v)
+	}
+	return acc
+}
+
+// JSONValues returns the arguments as the text of a JSON array, escaped for use inside a Rego string
 func (r ScalarSetRule) JSONValues() string {
 	var acc []string
-	for _, v := range r.Argument {
-		acc = append(acc, fmt.Sprintf("\\\"%s\\\"", v))
+	for _, v := range r.RegoValues() {
+		acc = append(acc, fmt.Sprintf("\"%s\"", v))
 	}
 
-	return fmt.Sprintf("[%s]", strings.Join(acc, ","))
+	return misc.RegoStringContent(fmt.Sprintf("[%s]", strings.Join(acc, ",")))
 }
 
 func (r ScalarSetRule) String() string {
